@@ -19,6 +19,8 @@ type interopCase struct {
 	Conf    *SConf   `json:"conf"`
 	Oracle  *SOracle `json:"oracle"`
 	CConf   *CConf   `json:"client"`
+	Built   string   `json:"built_server,omitempty"` // the server was made by a ServerBuilder: name of the recipe
+	Ident   int      `json:"client_identity"`
 	// observation
 	Out       string `json:"client_out"` // ret:<state> err blocked panic
 	ErrText   string `json:"client_err,omitempty"`
@@ -41,16 +43,34 @@ func (c *interopCase) coq() string {
 	case c.Out == "panic":
 		out = "IPanic"
 	}
-	return "(KInterop " + coqfmt.Record("i_sconf", c.Conf.Coq(), "i_auth", c.Oracle.coqAuth(), "i_reg", c.Oracle.coqReg(),
-		"i_cdesc", c.CConf.Coq(), "i_wire", coqfmt.Bool(c.Conf.Kind != "inproc"), "i_snode", coqfmt.Nat(tokenOfName(serverNode.Name)),
+	sconf := c.Conf.Coq()
+	oracle := coqfmt.Record("o_auth", coqfmt.App("auth_of", c.Oracle.coqAuth()), "o_reg", coqfmt.App("reg_of", c.Oracle.coqReg()))
+	if c.Built != "" {
+		for _, spec := range builtSpecs {
+			if spec.name == c.Built {
+				ops := make([]string, len(spec.ops))
+				for i, o := range spec.ops {
+					ops[i] = o.Coq()
+				}
+				kind := "(TTcp false)"
+				if c.Conf.Kind == "memtls" {
+					kind = "(TTcp true)"
+				}
+				sconf = coqfmt.App("built_conf", coqfmt.List(ops), kind, coqfmt.Bool(true))
+				oracle = coqfmt.App("built_oracle", coqfmt.List(ops))
+			}
+		}
+	}
+	return "(KInterop " + coqfmt.Record("i_sconf", sconf, "i_oracle", oracle,
+		"i_cdesc", c.CConf.Coq(), "i_ident", coqfmt.Nat(c.Ident), "i_wire", coqfmt.Bool(c.Conf.Kind != "inproc"), "i_snode", coqfmt.Nat(tokenOfName(serverNode.Name)),
 		"i_out", out, "i_srv_est", coqfmt.Bool(c.SrvEst), "i_sid_eq", coqfmt.Bool(c.SidEq),
 		"i_srv_remote", coqfmt.Nat(c.SrvRemote), "i_cli_local", coqfmt.Nat(c.CliLocal), "i_cli_remote", coqfmt.Nat(c.CliRemote),
 		"i_srv_enc", coqfmt.Str(c.SrvEnc), "i_cli_enc", coqfmt.Str(c.CliEnc)) + ")"
 }
 
 // runInterop plays one handshake between a real client channel and the scriptServer's real Server.
-func (s *scriptServer) runInterop(cconf *CConf) *interopCase {
-	c := &interopCase{Interop: true, Conf: s.conf, Oracle: s.oracle, CConf: cconf}
+func (s *scriptServer) runInterop(cconf *CConf, ident int) *interopCase {
+	c := &interopCase{Interop: true, Conf: s.conf, Oracle: s.oracle, CConf: cconf, Ident: ident}
 	var st, ct lime.Transport
 	var cleanup func()
 	switch s.conf.Kind {
@@ -116,7 +136,7 @@ func (s *scriptServer) runInterop(cconf *CConf) *interopCase {
 			done <- r
 		}()
 		csel, esel, au := cconf.callbacks()
-		r.ses, r.err = cc.EstablishSession(ctx, csel, esel, lime.Identity{Name: "u1", Domain: "verif.test"}, au, "i1")
+		r.ses, r.err = cc.EstablishSession(ctx, csel, esel, lime.ParseNode(clientNode(ident)).Identity, au, "i1")
 	}()
 	r := <-done
 	deadline := ctx.Err() != nil
@@ -211,10 +231,46 @@ func addInteropCases(env *Env, each func(c *interopCase)) {
 				}
 				cc := *cc0
 				cc.Kind = conf.Kind
-				c := srv.runInterop(&cc)
+				c := srv.runInterop(&cc, 1)
 				each(c)
 			}
 			srv.Close()
 		}
 	}
+	// servers made by a real ServerBuilder against clients made by a real ClientBuilder
+	for _, spec := range builtSpecs {
+		srv := newBuiltServer(spec, true)
+		for k, ops := range interopBuiltClients {
+			for _, ident := range []int{1, 50} {
+				if env.Tier == "quick" && ident == 50 && k%2 == 1 {
+					continue
+				}
+				cc := &CConf{Name: fmt.Sprintf("built-client-%d", k), Kind: spec.conn, TLSOk: true, Builder: ops}
+				c := srv.runInterop(cc, ident)
+				c.Built = spec.name
+				each(c)
+			}
+		}
+		srv.Close()
+	}
+}
+
+// ClientBuilder call sequences; the servers' authenticators (builder.go: userFn) accept a secret equal to the
+// identity token, ask for one round trip when it is one more, fail when it is two more, and reject anything else
+var interopBuiltClients = [][]KOp{
+	{{Op: "guest"}},
+	{{Op: "plain", N: 1}},
+	{{Op: "plain", N: 50}},
+	{{Op: "plain", N: 2}},
+	{{Op: "plain", N: 3}},
+	{{Op: "plain", N: 9}},
+	{{Op: "key", N: 1}},
+	{{Op: "key", N: 51}},
+	{{Op: "external", N: 1}},
+	{{Op: "transport"}},
+	{{Op: "enc", Arg: "tls"}, {Op: "plain", N: 1}},
+	{{Op: "enc", Arg: "none"}, {Op: "plain", N: 1}},
+	{{Op: "enc", Arg: "none"}, {Op: "comp", Arg: "none"}, {Op: "guest"}},
+	{{Op: "comp", Arg: "gzip"}, {Op: "plain", N: 1}},
+	{{Op: "plain", N: 9}, {Op: "enc", Arg: "none"}, {Op: "key", N: 50}, {Op: "enc", Arg: "tls"}},
 }
